@@ -299,7 +299,7 @@ let depth_eq0 (a : depth) (b : depth) =
   int_of_n a.d_env = int_of_n b.d_env && int_of_n a.d_stk = int_of_n b.d_stk && list_eq a.d_bind b.d_bind && sel_eq a.d_sel b.d_sel
 let depth_eq (a : depth2) (b : depth2) = depth_eq0 a.d2_base b.d2_base && int_of_n a.d2_iter = int_of_n b.d2_iter
 
-let lenient_infer (cb : codeblock) : (edge * n * depth2 * depth2) list * (n * depth2 * int list) list * (Stdlib.String.t * Stdlib.String.t) list =
+let lenient_infer ?(no_exc = false) (cb : codeblock) : (edge * n * depth2 * depth2) list * (n * depth2 * int list) list * (Stdlib.String.t * Stdlib.String.t) list =
   let a : (int, depth2 list) Hashtbl.t = Hashtbl.create 64 in
   let get pc = try Hashtbl.find a pc with Not_found -> [] in
   let merges = ref [] and stucks = ref [] and residues = ref [] in
@@ -314,13 +314,15 @@ let lenient_infer (cb : codeblock) : (edge * n * depth2 * depth2) list * (n * de
          let path' = let p = int_of_n pc :: path in if List.length p > 80 then List.filteri (fun i _ -> i < 80) p else p in
          let here = get (int_of_n pc) in
          if List.exists (depth_eq d) here then ()
-         else (match List.find_opt (fun d0 -> sel_eq d0.d2_base.d_sel d.d2_base.d_sel) here with
+         else (match List.find_opt (fun d0 -> sel_eq d0.d2_base.d_sel d.d2_base.d_sel &&
+                                              (not (in_drain cb pc) || int_of_n d0.d2_iter = int_of_n d.d2_iter)) here with
              | Some d0 -> merges := (e, pc, d0, d) :: !merges
              | None ->
                  Hashtbl.replace a (int_of_n pc) (d :: here);
                  (match succs_tagged2 cb pc d with
                   | None -> stucks := (pc, d, path') :: !stucks
                   | Some l ->
+                      let l = if no_exc then List.filter (fun ((e', _), _) -> match e' with EExc _ -> false | _ -> true) l else l in
                       let fix ((e', pc'), d') =
                         match e' with
                         | EExc from ->
@@ -486,14 +488,30 @@ let verify_block (b : blk) : vblk =
     (* the strict pass failed: diagnose with the lenient pass (exception edges carry the depths of the range start, as a
        per-handler depth would), which reports the residue itself and every defect that is not a consequence of it *)
     let (merges, stucks, residues) = lenient_infer cb in
+    (* iterator-stack conflicts on *normal* control flow alone (exception edges removed): these cannot be consequences of
+       handler-entry residue, they are lowering defects of break / continue / return (a loop left without closing its record) *)
+    let (nmerges, nstucks, _) = lenient_infer ~no_exc:true cb in
+    let genuine_uf = List.filter_map (fun (pc, d, _) -> if stuck_reason cb pc d = "iterator-stack-underflow" then Some (int_of_n pc) else None) nstucks in
+    let relabel_uf (c, t) pc = if c = "iterator-stack-underflow" && not (List.mem pc genuine_uf) then ("exc-edge-iterator-residue", "(consequence: reachable only through exception edges) iterator-stack-underflow " ^ t) else (c, t) in
+    let genuine = List.filter_map (fun (e, pc, have, want) ->
+        if classify_merge2 ~flags:b.flags cb e (int_of_n pc) have want = "iterator-stack-depth-merge" then Some (int_of_n pc) else None) nmerges in
+    let relabel (c, t) pc = if c = "iterator-stack-depth-merge" && not (List.mem pc genuine) then ("exc-edge-iterator-residue", "(consequence) " ^ t) else (c, t) in
+    let strict = List.map2 (fun (c, t) er -> match er with ErrMerge2 (_, pc, _, _) -> relabel (c, t) (int_of_n pc) | ErrStuck2 (pc, _) -> relabel_uf (c, t) (int_of_n pc) | _ -> (c, t)) strict (List.rev ierrs) in
     if merges = [] && stucks = [] && residues = [] then List.iter (fun (c, t) -> add c t) strict
     else begin
       List.iter (fun (c, t) -> add c t) residues;
       List.iter (fun (e, pc, have, want) ->
-          add (classify_merge2 ~flags:b.flags cb e (int_of_n pc) have want)
-            (Printf.sprintf "pc=%d edge=%s have=%s arriving=%s" (int_of_n pc) (edge_str e) (show_depth2 have) (show_depth2 want))) merges;
-      List.iter (fun (pc, d, path) -> add (stuck_reason cb pc d) (Printf.sprintf "pc=%d at %s path(latest first)=%s" (int_of_n pc) (show_depth2 d)
-                                                                     (Stdlib.String.concat "<" (List.map string_of_int path)))) stucks
+          let (c, t) = relabel (classify_merge2 ~flags:b.flags cb e (int_of_n pc) have want,
+                                Printf.sprintf "pc=%d edge=%s have=%s arriving=%s" (int_of_n pc) (edge_str e) (show_depth2 have) (show_depth2 want)) (int_of_n pc) in
+          add c t) merges;
+      List.iter (fun (e, pc, have, want) ->
+          if List.mem (int_of_n pc) genuine && not (List.exists (fun (e', pc', _, _) -> int_of_n pc' = int_of_n pc && e' = e) merges) then
+            add "iterator-stack-depth-merge"
+              (Printf.sprintf "[normal control flow only] pc=%d edge=%s have=%s arriving=%s" (int_of_n pc) (edge_str e) (show_depth2 have) (show_depth2 want))) nmerges;
+      List.iter (fun (pc, d, path) ->
+          let (c, t) = relabel_uf (stuck_reason cb pc d, Printf.sprintf "pc=%d at %s path(latest first)=%s" (int_of_n pc) (show_depth2 d)
+                                     (Stdlib.String.concat "<" (List.map string_of_int path))) (int_of_n pc) in
+          add c t) stucks
     end
   end;
   let dup = duplicate_selector_lint cb in
@@ -578,7 +596,7 @@ let validate (blocks : (int, vblk) Hashtbl.t) (log : drec list) : unit =
                      let susp = is_suspend pop in
                      let m = List.find_opt (fun ((e, pc'), d') ->
                          int_of_n pc' = r.pc && int_of_n d'.d2_base.d_env = r.env && List.length d'.d2_base.d_bind = r.nb &&
-                         (p.it < 0 || r.it < 0 || int_of_n d'.d2_iter = r.it) &&
+                         (p.it < 0 || r.it < 0 || int_of_n d'.d2_iter = r.it || (pop = Op_IteratorFinishAsyncNext && int_of_n d'.d2_iter = r.it + 1)) &&
                          (match e with
                           | EExc _ -> true
                           | _ -> (susp && !exc_seen) || int_of_n d'.d2_base.d_stk = r.stk)) succs in
